@@ -5,6 +5,7 @@ import (
 	"math/rand"
 	"sort"
 	"strings"
+	"time"
 
 	"github.com/junioryono/godi/v4"
 	"github.com/junioryono/godi/v4/verifh/eng"
@@ -290,6 +291,24 @@ func (q *seqRun) step(o *Op, stepNo int) []finding {
 	switch {
 	case !okBuild:
 		q.stats["build_checks_skipped_reference_not_buildable"]++
+		if o.Kind == "build" && c17RefusedBuilds {
+			// (directed sequences, under their watchdog) the Build is issued for real: whether it
+			// is refused is C07's / C08's business - here the collection must survive it
+			func() {
+				defer func() {
+					if p := recover(); p != nil {
+						q.poisoned = true
+						fs = append(fs, finding{"build-panics", "C17/build-panics:refused-build", fmt.Sprintf("Build panicked after %s: %v", o, p)})
+					}
+				}()
+				if p, err := q.c.Build(); err == nil {
+					_ = p.Close()
+					q.stats["refused_builds_that_succeeded"]++
+				} else {
+					q.stats["refused_builds"]++
+				}
+			}()
+		}
 	default:
 		b := q.e.buildAndObserve(q.c)
 		q.stats["build_checks"]++
@@ -603,6 +622,24 @@ func smallAlphabet() []*Op {
 	}
 }
 
+// c17RefusedBuilds: Build steps whose reference state is not buildable are issued for real.
+var c17RefusedBuilds bool
+
+// refusedBuildSequences: sequences around Builds that fail validation.
+func refusedBuildSequences() [][]*Op {
+	b := &Op{Kind: "build"}
+	return [][]*Op{
+		// a required dependency is missing; it is added; it is removed again; it is added with another lifetime
+		{add("scoped", "PosA_1_1"), b, add("singleton", "Leaf_K0_a"), b, {Kind: "remove", Type: "K0"}, b, add("transient", "Leaf_K0_b"), b},
+		{add("singleton", "PosA_1_1"), b, b, add("singleton", "Leaf_K0_a"), b},
+		{add("transient", "PosA_1_1"), add("singleton", "Leaf_K1_b", "name=k"), b, {Kind: "removeKeyed", Type: "K1", Key: "k"}, add("scoped", "Leaf_K0_b"), b},
+		// a captive dependency: refused, then the consumer is registered again as scoped
+		{add("scoped", "Leaf_K0_b"), add("singleton", "PosA_1_1"), b, {Kind: "remove", Type: "K1"}, add("scoped", "PosA_1_1"), b},
+		// refused twice in a row, rejected Add in between
+		{add("scoped", "PosA_1_1"), b, add("scoped", "PosA_1_1"), b, add("singleton", "Leaf_K0_a"), b},
+	}
+}
+
 func init() {
 	eng.Register(&eng.Property{
 		ID:    "C17",
@@ -693,6 +730,43 @@ func runC17(c *eng.Ctx) {
 			c.R.Sample(map[string]any{"kind": "random-sequence", "ops": seqString(ops)})
 		}
 		c.R.End(idx, eng.Hash("c17-rand", seqString(ops)), m)
+	}
+	// directed: Builds that are REFUSED (a required dependency is missing, a captive dependency)
+	// in the middle of a sequence - the collection stays what it was, can be corrected and built
+	// again, and every query keeps answering. Each sequence runs under a watchdog: a collection
+	// that stops answering is a violation (with the goroutine dump), not a harness fault.
+	for di, seq := range refusedBuildSequences() {
+		idx := caseIdx
+		caseIdx++
+		if !c.Mine(idx) {
+			continue
+		}
+		c.R.Begin(idx)
+		done := make(chan struct{})
+		var m bool
+		c17RefusedBuilds = true
+		go func() {
+			defer close(done)
+			_, m = runSeq(c, lim, stats, idx, fmt.Sprintf("refused-build-%d", di), func(i int, _ *Ref) *Op {
+				if i >= len(seq) {
+					return nil
+				}
+				return seq[i]
+			})
+		}()
+		if v := eng.AwaitOrDiagnose(done, 30*time.Second); !v.Done {
+			if v.Deadlock {
+				c.R.Violation(eng.Violation{Prop: "C17", Clause: "operation-never-returns", Sig: "C17/operation-never-returns:after-a-refused-Build:" + eng.InnermostGodiFn(v.Dump), Case: idx, CaseID: fmt.Sprintf("refused-build-%d", di),
+					Detail: fmt.Sprintf("[%s]: a call on the collection never returned; goroutines stuck inside godi:\n%s", seqString(seq), v.Dump), Replay: map[string]any{"text": seqString(seq)}})
+			} else {
+				c.R.Inconclusive(idx, "refused-build sequence did not finish within the watchdog and no goroutine is provably stuck inside godi")
+			}
+			c.R.Abandon(idx)
+			continue
+		}
+		c17RefusedBuilds = false
+		stats["refused_build_sequences"]++
+		c.R.End(idx, eng.Hash("c17-refused-build", di), m)
 	}
 	runC17Initializers(c, func() (int, bool) { i := caseIdx; caseIdx++; return i, c.Mine(i) })
 	for k, v := range stats {
